@@ -4,7 +4,7 @@
    correspondence run of checks/C01.py; Gen/Registry.v and Gen/Grammar.v are regenerated on every run. *)
 From Coq Require Import ZArith List Bool Arith String.
 Import ListNotations.
-From SqfVerif Require Import Syntax.SyntaxDefs Syntax.ParsePrint Syntax.CompileProofs Syntax.GenProofs Syntax.Findings.
+From SqfVerif Require Import Syntax.SyntaxDefs Syntax.ParsePrint Syntax.LexProofs Syntax.CompileProofs Syntax.Reading Syntax.GenProofs Syntax.Findings.
 From SqfVerif Require Gen.Registry Gen.Grammar.
 
 (* 1-2. The reading.  `print_toks R lay ss` is the documented reading written out: a binary operator of
@@ -29,6 +29,31 @@ Proof.
   apply (proj2 (strip_nopar (size_stmt s)) s (le_n _)). rewrite forallb_forall in Hnp. apply Hnp. exact Hs.
 Qed.
 Print Assumptions C01_parse_print_min.
+
+(* 3. Whitespace.  A token is well spelled (tok_ok) when its text alone is read as exactly that token.  Write
+   well-spelled tokens with arbitrary whitespace (space, tab, CR, LF) before each and at the end - and with
+   none at all wherever the next character is whitespace, a bracket or a separator, or the token itself is a
+   bracket, a separator or a sign (sep_ok) - and the lexer returns exactly those tokens.  Letter case: names
+   are classified by their lower-cased spelling (classify_name) and compiled in lower case (postorder), so
+   theorems 1-2, which hold for trees with ANY spelling of the names, cover arbitrary letter case. *)
+Theorem C01_lex_render : forall items trail, sep_ok items trail -> lex (render items trail) = LexOk (map snd items).
+Proof. exact lex_render. Qed.
+Print Assumptions C01_lex_render.
+
+(* 1-3 composed: from the text of the documented reading to the tree, and to the compiled post-order *)
+Theorem C01_reading_end_to_end : forall (R:registry) (d:defects) (lay:layout) (ss:list stmt) items trail,
+  wf_block R ss -> map snd items = print_raw lay ss -> sep_ok items trail ->
+  exists f0, forall f, (f0 <= f)%nat -> parse_text d R f (render items trail) = FOk (map strip_stmt ss).
+Proof. exact reading_end_to_end. Qed.
+Print Assumptions C01_reading_end_to_end.
+
+Theorem C01_compiled_reading : forall (R:registry) (d:defects) (lay:layout) (ss:list stmt) items trail,
+  wf_block R ss -> map snd items = print_raw lay ss -> sep_ok items trail ->
+  exists f0, forall f, (f0 <= f)%nat ->
+    match parse_text d R f (render items trail) with FOk p => compile_block p | _ => None end
+    = Some (postorder_block (map strip_stmt ss)).
+Proof. exact compiled_reading. Qed.
+Print Assumptions C01_compiled_reading.
 
 (* 4. The emitted instruction sequence is the post-order of the reading: the compiler model (which appends
    to a vector exactly as to_assembly does, including the cast applied by the sign fold) never reaches
@@ -116,5 +141,9 @@ Definition ex_prog : list stmt :=
     SExpr (Bin 2%nat [62] (Arr [Lit (LNum [49]); Code [SExpr (Un [33] (Var [99]))]]) (Bin 5%nat [43] (Var [97]) (Bin 5%nat [43] (Var [98]) (Var [99])))) ].
 Example ex_wf : wf_block ex_R ex_prog.
 Proof. vm_compute. reflexivity. Qed.
+(* the hypotheses of theorem 3 are met by a rendering with mixed gluing: `x =(a +pi)* \t+b ;\n` *)
+Example ex_sep_ok : sep_ok [([], RIdent [120]); ([32], REqual); ([], RRoundO); ([], RIdent [97]); ([32], ROp [43]); ([], RIdent [112;105]);
+                            ([], RRoundC); ([], ROp [42]); ([32; 9], ROp [43]); ([], RIdent [98]); ([32], RSemi)] [10].
+Proof. cbn [sep_ok]. repeat split; try (left; reflexivity); try (right; reflexivity); try reflexivity. Qed.
 Example ex_parses : parse_toks as_is 200%nat (print_toks ex_R layout_min ex_prog) = POk (map strip_stmt ex_prog).
 Proof. vm_compute. reflexivity. Qed.
